@@ -1,5 +1,8 @@
 import Driver.SimParse
 import Q1t.Spec.Born
+import Q1t.Model.StabSim
+import Q1t.Gen.Conj
+import Q1t.Gen.PhaseTable
 /-!
 Driver for the simulator spine (C02, also used by C01/C09/C10).
 * model mode: `step | <op> | <pre snapshot> | <pre register> | <draws>` → the model executes the single
@@ -16,6 +19,74 @@ def showFail : Fail → String
   | .err e => showSimErr e
   | .panic _ => "panic"
 
+/-! ### conjugation rule of a gate term (driver-side; mirrors kron.rs / composite.rs / staticloop.rs) -/
+
+open Q1t.Tableau in
+def primName : GateTerm Float → Option String
+  | .H => some "H" | .X => some "X" | .Y => some "Y" | .Z => some "Z" | .S => some "S" | .Sdg => some "Sdg"
+  | .T => some "T" | .Tdg => some "Tdg" | .V => some "V" | .Vdg => some "Vdg" | .I => some "I"
+  | .RX _ => some "RX" | .RY _ => some "RY" | .RZ _ => some "RZ" | .U1 _ => some "U1" | .U2 _ _ => some "U2"
+  | .U3 _ _ _ => some "U3" | .CX => some "CX" | .CY => some "CY" | .CZ => some "CZ" | .Swap => some "Swap"
+  | _ => none
+
+mutual
+partial def conjOfTerm (g : GateTerm Float) : Q1t.Tableau.Tab.Conj := fun ops =>
+  match g with
+  | .C _ => .error .notAStabilizer
+  | .Kron g0 g1 =>
+      let n := Gate.nrBits g0 + Gate.nrBits g1
+      if ops.length ≠ n then .error (.invalidNrBits ops.length n) else
+      let n0 := Gate.nrBits g0
+      match conjOfTerm g0 (ops.take n0) with
+      | .error e => .error e
+      | .ok (f0, o0) =>
+        match conjOfTerm g1 (ops.drop n0) with
+        | .error e => .error e
+        | .ok (f1, o1) => .ok (f0 != f1, o0 ++ o1)
+  | .Composite _ n body =>
+      if ops.length ≠ n then .error (.invalidNrBits ops.length n) else conjOps body ops false
+  | .Loop _ iters _ n body =>
+      if ops.length ≠ n then .error (.invalidNrBits ops.length n) else
+      (List.range iters).foldl (fun acc _ =>
+        match acc with
+        | .error e => .error e
+        | .ok (f, o) => match conjOps body o false with
+          | .error e => .error e
+          | .ok (f', o') => .ok (f != f', o')) (.ok (false, ops))
+  | prim =>
+      match primName prim with
+      | some name => Q1t.Tableau.conjOf Q1t.Gen.conjTable Q1t.Gen.conjNoArityCheck name ops
+      | none => .error .notAStabilizer
+
+partial def conjOps : OpList Float → List Q1t.Tableau.P → Bool → Except Q1t.Tableau.GErr (Bool × List Q1t.Tableau.P)
+  | .nil, ops, f => .ok (f, ops)
+  | .cons g bits rest, ops, f =>
+      let gateOps := bits.map fun b => ops.getD b .I
+      match conjOfTerm g gateOps with
+      | .error e => .error e
+      | .ok (f', out) =>
+        let ops' := (bits.zip out).foldl (fun acc (b, p) => acc.set b p) ops
+        conjOps rest ops' (f != f')
+end
+
+/-- `S <n> <K> <counts…> <tableau texts, rows joined by ','>` -/
+def parseStabSnapshot (nshots : Nat) : List String → Option StabState
+  | "S" :: n :: k :: rest => do
+      let n ← n.toNat?
+      let k ← k.toNat?
+      let (counts, r) ← takeNats k rest
+      if r.length ≠ k then none
+      let tabs ← r.mapM fun txt => Q1t.Tableau.Tab.ofLines (if txt = "-" then [] else txt.splitOn ",")
+      pure { nrBits := n, nrShots := nshots, counts := counts, tabs := tabs }
+  | _ => none
+
+def showStabSnapshot (s : StabState) : String :=
+  s!"S {s.nrBits} {s.counts.length} {joinNats s.counts}" ++
+    String.join (s.tabs.map fun t => " " ++ (if t.n = 0 then "-" else (Q1t.Tableau.Tab.display t).replace "\n" ","))
+
+def stabB : Backend CFloat Float StabState :=
+  stabBackend (⟨0.5, 0.0⟩ : CFloat) Q1t.Gen.phaseTable conjOfTerm
+
 def handleStep (fs : List (List String)) : String :=
   match fs with
   | [_, opToks, snap, reg, draws] =>
@@ -29,7 +100,16 @@ def handleStep (fs : List (List String)) : String :=
         | .ok (.ok (st', reg'), rest) =>
           if !rest.isEmpty then "draw-mismatch impl-made-more-draws-than-model"
           else s!"ok | {showVecSnapshot st'} | {joinNats reg'}"
-      | none => "unsupported-snapshot"
+      | none =>
+        match parseStabSnapshot reg.length snap with
+        | some st =>
+          match runChecked (execOp stabB st reg op) ds with
+          | .error msg => s!"draw-mismatch {msg}"
+          | .ok (.error f, _) => showFail f
+          | .ok (.ok (st', reg'), rest) =>
+            if !rest.isEmpty then "draw-mismatch impl-made-more-draws-than-model"
+            else s!"ok | {showStabSnapshot st'} | {joinNats reg'}"
+        | none => "unsupported-snapshot"
     | _, _, _ => "bad-op"
   | _ => "bad-op"
 
@@ -51,24 +131,74 @@ def splitOps (ws : List String) : List (List String) :=
     | w :: rest => if w = ";" then go [] (acc.reverse :: out) rest else go (w :: acc) out rest
   (go [] [] ws).filter (· ≠ [])
 
+/-- forced replay, reporting the index of the first operation at which no candidate survives -/
+def replayTraced (n : Nat) (nonzero : List CFloat → Bool) :
+    List (COp Float) → List Nat → Nat → List (List CFloat × Nat) → Except Nat (List (List CFloat × Nat))
+  | [], _, _, cands => .ok cands
+  | _ :: _, [], j, _ => .error j
+  | op :: ops, w' :: outs, j, cands =>
+      let next := (cands.flatMap fun (ψ, w) => Spec.replayOp (P := Float) n nonzero op ψ w w').filter fun c => nonzero c.1
+      if next.isEmpty then .error j else replayTraced n nonzero ops outs (j + 1) next
+
+def opKind : COp Float → String
+  | .gate _ _ => "gate" | .cond _ _ _ _ => "cond" | .reset _ => "reset" | .resetAll => "resetall"
+  | .measure _ _ _ => "measure" | .measureAll _ _ => "measureall" | .peek _ _ _ => "peek"
+  | .peekAll _ _ => "peekall" | .barrier _ => "barrier"
+
+/-- the signed Pauli row `±P` applied to a float vector (qubit 0 = most significant index bit) -/
+def actRow (n : Nat) (sign : Bool) (row : List Q1t.Tableau.P) (ψ : List CFloat) : List CFloat :=
+  let arr := ψ.toArray
+  (List.range (2 ^ n)).map fun i =>
+    -- (Pψ)[i] = Σ_j P[i][j] ψ[j]; P is a signed permutation-with-phase matrix: j = i with X/Y bits flipped
+    let (j, ph) := row.zipIdx.foldl (fun (acc : Nat × CFloat) (p, q) =>
+      let (j, ph) := acc
+      let bit := (i >>> (n - 1 - q)) % 2
+      match p with
+      | .I => (j, ph)
+      | .Z => (j, if bit = 1 then -ph else ph)
+      | .X => (j ^^^ (1 <<< (n - 1 - q)), ph)
+      -- Y = [[0,-i],[i,0]]: row bit 0 picks -i * (col 1), row bit 1 picks +i * (col 0)
+      | .Y => (j ^^^ (1 <<< (n - 1 - q)), ph * (if bit = 0 then ⟨0.0, -1.0⟩ else ⟨0.0, 1.0⟩))) (i, (1 : CFloat))
+    let v := ph * arr.getD j 0
+    if sign then -v else v
+
+def vdist2 (a b : List CFloat) : Float := (List.zipWith (fun x y => CFloat.normSq (x - y)) a b).foldl (· + ·) 0.0
+
+def stabilizesF (t : Q1t.Tableau.Tab) (ψ : List CFloat) : Bool :=
+  (List.zipWith (fun s r => decide (vdist2 (actRow t.n s r ψ) ψ ≤ 1e-9 * vnormSq ψ)) t.signs t.rows).all id
+
 def specShot (fs : List (List String)) : String :=
   match fs with
   | [_, [nq], opsF, wordsF, stateF] =>
-    match nq.toNat?, (splitOps opsF).mapM parseOp, nats? wordsF, parseVec stateF with
-    | some n, some ops, some outs, some φ =>
+    match nq.toNat?, (splitOps opsF).mapM parseOp, nats? wordsF with
+    | some n, some ops, some outs =>
       let ψ0 : List CFloat := (List.range (2 ^ n)).map fun i => if i = 0 then 1 else 0
       let nonzero := fun (v : List CFloat) => vnormSq v > 1e-18
-      let cands := Spec.replay (P := Float) n nonzero ops outs [(ψ0, 0)]
-      let nφ := vnormSq φ
-      if Float.abs (nφ - 1.0) > 1e-9 then s!"fail state-not-normalised norm2={nφ}"
-      else if cands.isEmpty then "fail recorded-outcomes-have-probability-zero"
-      else
-        -- equal up to a global phase: |<ψ|φ>|² = ‖ψ‖²‖φ‖²
-        let good := cands.any fun (ψ, _) =>
-          let ip := CFloat.normSq (inner ψ φ)
-          Float.abs (ip - vnormSq ψ * nφ) ≤ 1e-9 * (vnormSq ψ + 1e-300) + 1e-12 * 0.0 + 1e-9 * vnormSq ψ
-        if good then "ok" else "fail state-differs-from-exact-conditional-state"
-    | _, _, _, _ => "fail bad-request"
+      let isTab := stateF.head? == some "T"
+      match replayTraced n nonzero ops outs 0 [(ψ0, 0)] with
+      | .error j =>
+        let k := (ops.getD j (.barrier [])) |> opKind
+        s!"fail {if isTab then "stab" else "vec"}-{k}-impossible-value recorded-outcomes-have-probability-zero at op {j}"
+      | .ok cands =>
+        if isTab then
+          match Q1t.Tableau.Tab.ofLines (match stateF with | [_, txt] => (if txt = "-" then [] else txt.splitOn ",") | _ => []) with
+          | none => "fail bad-request tableau"
+          | some t =>
+            if cands.any fun (ψ, _) => stabilizesF t ψ then "ok"
+            else "fail stab-state-differs tableau-does-not-stabilize-the-exact-conditional-state"
+        else
+        match parseVec stateF with
+        | none => "fail bad-request"
+        | some φ =>
+          let nφ := vnormSq φ
+          if Float.abs (nφ - 1.0) > 1e-9 then s!"fail state-not-normalised norm2={nφ}"
+          else
+            -- equal up to a global phase: |<ψ|φ>|² = ‖ψ‖²‖φ‖²
+            let good := cands.any fun (ψ, _) =>
+              let ip := CFloat.normSq (inner ψ φ)
+              Float.abs (ip - vnormSq ψ * nφ) ≤ 2e-9 * vnormSq ψ
+            if good then "ok" else "fail vec-state-differs state-differs-from-exact-conditional-state"
+    | _, _, _ => "fail bad-request"
   | _ => "fail bad-request"
 
 def specCheck (line : String) : String :=
